@@ -1,4 +1,5 @@
 """C19 - point queries at interior cell centres return the stored cell value."""
+import os
 import numpy as np
 from hypothesis import strategies as st
 
@@ -41,7 +42,9 @@ def cases(draw, tier="quick"):
                         cell=[draw(st.integers(0, 40)) for _ in range(3)], dim=draw(st.integers(0, 2)),
                         out=draw(st.sampled_from(["below", "above", "far_below", "far_above", "hair_below", "hair_above"]))))
     # reuse: one selection object answers all the points of the case (probe = pck[fields]; probe(p1); probe(p2); ...)
-    return dict(spec=spec, limit=draw(st.one_of(st.none(), st.integers(0, nlev - 1))), points=pts, reuse=draw(st.booleans()))
+    # a refinement ratio of 4: the middle level of a three-level plotfile is removed after writing (Header rewritten)
+    return dict(spec=spec, limit=draw(st.one_of(st.none(), st.integers(0, nlev - 1))), points=pts, reuse=draw(st.booleans()),
+                ratio4=nlev == 3 and draw(st.integers(0, 2 ** 16)) % 3 == 0)
 
 
 def compact(case):
@@ -49,15 +52,60 @@ def compact(case):
                 points=case["points"][:3])
 
 
+def drop_middle_level(path, plot):
+    """Turns a three-level ratio-2 plotfile into a two-level one with refinement ratio 4 (levels 0 and 2 kept)."""
+    import re
+    import shutil
+    with open(os.path.join(path, "Header")) as fh:
+        lines = fh.read().split("\n")
+    nf = int(lines[1])
+    i = 2 + nf
+    nd = int(lines[i]); i += 2                  # ndims, time
+    assert int(lines[i]) == 2
+    lines[i] = "1"; i += 3                      # finest level, low, high
+    lines[i] = "4" + (" " if lines[i].endswith(" ") else ""); i += 1
+    doms = re.findall(r"\(\([^()]*\) \([^()]*\) \([^()]*\)\)", lines[i])
+    lines[i] = " ".join([doms[0], doms[2]]) + (" " if lines[i].endswith(" ") else ""); i += 1
+    lines[i] = " ".join(lines[i].split()[:2]) + (" " if lines[i].endswith(" ") else ""); i += 1
+    del lines[i + 1]                            # cell size of level 1
+    i += 2 + 2                                  # two dx lines, coordinate system, zero
+    out = lines[:i]
+    for l in range(3):
+        nb = int(lines[i].split()[1])
+        n = 2 + nb * nd + 1
+        sec = lines[i:i + n]
+        i += n
+        if l == 1:
+            continue
+        if l == 2:
+            t = sec[0].split()
+            sec[0] = " ".join(["1"] + t[1:])
+            sec[-1] = f"{plot.level_dir(1)}/Cell"
+        out += sec
+    out += lines[i:]
+    with open(os.path.join(path, "Header"), "w") as fh:
+        fh.write("\n".join(out))
+    shutil.rmtree(os.path.join(path, plot.level_dir(1)))
+    os.rename(os.path.join(path, plot.level_dir(2)), os.path.join(path, plot.level_dir(1)))
+
+
 def check_case(case, ctx):
     from amr_kitchen import PlotfileCooker
     ctx.fresh()
     plot = plotgen.Plot(case["spec"])
     plotgen.write(plot, "src")
+    ratio4 = bool(case.get("ratio4")) and plot.nlev == 3
+    if ratio4:
+        drop_middle_level("src", plot)
+        ctx.label("refinement-ratio-4")
     labs = plot.labels()
     ctx.label(*labs)
     limit = case["limit"]
     L = plot.nlev - 1 if limit is None else limit
+    if ratio4:
+        # generator levels 0 and 2 are the file's levels 0 and 1; a limit >= 1 selects both
+        limit = None if limit is None else min(limit, 1)
+        L = 2 if (limit is None or limit == 1) else 0
     try:
         pck = qcall(PlotfileCooker, "src", limit_level=limit)
     except Exception as e:
@@ -119,6 +167,8 @@ def check_case(case, ctx):
                 pass
             continue
         lv = min(pt["lv"], L)
+        if ratio4 and lv == 1:
+            lv = 2 if L == 2 else 0
         boxes = plot.levels[lv]["boxes"]
         # boxes with an interior (extent >= 3 in every direction)
         cand = [b for b, (lo, hi) in enumerate(boxes) if all(hi[d] - lo[d] + 1 >= 3 for d in range(3))]
@@ -128,7 +178,11 @@ def check_case(case, ctx):
         b = cand[pt["box"] % len(cand)]
         lo, hi = boxes[b]
         cell = [lo[d] + 1 + pt["cell"][d] % (hi[d] - lo[d] - 1) for d in range(3)]
-        if plot.covered_mask(lv, L)[tuple(cell)]:
+        if ratio4 and lv == 0 and L == 2:
+            covered = any(all(lo2[d] >> 2 <= cell[d] <= hi2[d] >> 2 for d in range(3)) for lo2, hi2 in plot.levels[2]["boxes"])
+        else:
+            covered = bool(plot.covered_mask(lv, L)[tuple(cell)])
+        if covered:
             ctx.label("point:covered-by-finer (skipped)")
             continue
         xyz = [plot.geo_lo[d] + (cell[d] + 0.5) * plot.dx[lv][d] for d in range(3)]
